@@ -88,3 +88,9 @@ func (s *Subscription) VerifNextNoBlock() (ev Event, err error, ok bool) {
 	}
 	return ev, err, true
 }
+
+// VerifCtx returns the context VerifNextNoBlock uses, for wrappers that call Next themselves.
+func (s *Subscription) VerifCtx() context.Context { return verifCtx{s} }
+
+// VerifWouldBlock reports whether err is the "nothing deliverable right now" answer of VerifCtx.
+func VerifWouldBlock(err error) bool { return errors.Is(err, errVerifWouldBlock) }
